@@ -43,7 +43,16 @@ def decode_with(cls, src, nbytes):
 # ---------------------------------------------------------------------------------------
 # C06
 # ---------------------------------------------------------------------------------------
-def judge_c06(ws, w, acc, order):
+def huge_cuts(n):
+    """cut positions for an encoding that holds a 2 MiB payload: the last bytes, and around every distance from the end
+    that a reader working in 1 KiB .. 2 MiB pieces could treat differently"""
+    ds = {1, 2, 3, 1000, 4321, 4322}
+    for k in range(10, 22):
+        ds |= {2**k - 1, 2**k, 2**k + 1}
+    return sorted({n - d for d in ds if 0 <= n - d < n} | {0, 1, n // 2})
+
+
+def judge_c06(ws, w, acc, order, cuts=None):
     from kio.serial.errors import BufferUnderflow
 
     cls = ws.cls
@@ -53,7 +62,7 @@ def judge_c06(ws, w, acc, order):
     except Exception:  # noqa: BLE001 - not encodable: outside C06's quantifier (C01 judges it)
         acc.add("not_encodable")
         return
-    for cut in range(len(enc)):
+    for cut in (range(len(enc)) if cuts is None else cuts(len(enc))):
         prefix = enc[:cut]
         for kind in ("BytesIO", "ReadOnlySource"):
             src = io.BytesIO(prefix) if kind == "BytesIO" else streams.ReadOnlySource(prefix)
@@ -107,6 +116,11 @@ def _task_c06(arg):
         if cost and len(acc.samples) < 1:
             acc.sample({"class": ws.path, "edits": [list(e) for e in edits], "wire": short(w, 200),
                         "cuts": "every prefix length 0..len-1 on BytesIO and on a read-only source"})
+    # payloads of 2 MiB + 4321 bytes, one slot at a time, cut at the positions of huge_cuts() only
+    for n, w in enumerate(values.huge_instances(ex.tree)):
+        acc.add("instances")
+        acc.add("huge_payload_instances")
+        judge_c06(ws, w, acc, (idx, 1, 10**7 + n), cuts=huge_cuts)
     acc.add("classes")
     if ex.capped:
         acc.caps.append(f"{ws.path}: instance cap {cfg['cap']} hit, completed k={ex.k}")
@@ -131,7 +145,7 @@ def run_c06(tier):
     c["rule"] = (
         f"for every one of the {len(classes)} entity classes, every instance within k<={cfg['k']} "
         f"deviations of the base instance (strings/bytes capped at {cfg['max_len']} bytes so that all "
-        "cut positions stay affordable), every strict prefix of its encoding (cut = 0..len-1), on "
+        "cut positions stay affordable), every strict prefix of its encoding (cut = 0..len-1), plus, per string / bytes / records slot, the base instance with a 2 MiB + 4321 byte payload cut at ~45 positions (the last bytes and 2^k +- 1 bytes before the end, k = 10..21), on "
         "io.BytesIO and on a socket-like read-only source; each (instance, cut, source) is a distinct "
         "fault case, non-trivial when the prefix is not empty; verdict: raises exactly kio.serial.errors.BufferUnderflow within "
         f"{BUDGET_A}+{BUDGET_B}*len monitored steps"
@@ -151,7 +165,7 @@ def replay(prop, path):
     ws = wire_schema(cls)
     acc = Acc()
     if prop == "C06":
-        judge_c06(ws, case["wire"], acc, (0, 0, 0))
+        judge_c06(ws, case["wire"], acc, (0, 0, 0), cuts=(huge_cuts if case.get("len", 0) > 65536 else None))
     else:
         from . import malformed
 
